@@ -394,14 +394,7 @@ func runStep(t *testing.T, svc *standardsigner.Service, dp *domainProvider, rec 
 		case s == zero:
 			obs.Sigs = append(obs.Sigs, "PZero")
 		default:
-			rec.mu.Lock()
-			term, ok := rec.prov[string(s[:])]
-			rec.mu.Unlock()
-			if ok {
-				obs.Sigs = append(obs.Sigs, term)
-			} else {
-				obs.Sigs = append(obs.Sigs, "PUnknown")
-			}
+			obs.Sigs = append(obs.Sigs, rec.provenance(env, s[:]))
 		}
 		ok := false
 		if i < len(roots) && i < len(in.Batch) && s != zero {
